@@ -379,3 +379,19 @@ def local_origin(ld, e, depth=0):
             sub = local_origin(ld, init, depth + 1)
             return ("proj", sub, path, name)
     return ("expr", e)
+
+
+def walk_ctx(node, anc=None):
+    """Pre-order generator yielding (node, ancestors) for dict nodes."""
+    anc = anc or []
+    if isinstance(node, dict):
+        yield node, anc
+        for v in node.values():
+            if isinstance(v, (dict, list)):
+                for x in walk_ctx(v, anc + [node]):
+                    yield x
+    elif isinstance(node, list):
+        for v in node:
+            if isinstance(v, (dict, list)):
+                for x in walk_ctx(v, anc):
+                    yield x
